@@ -97,6 +97,20 @@ def _oracle_cosines(pts, viewer):
     return out
 
 
+def _read_patch_quads(text: str):
+    """patch name -> quads (vertex numbers) of the `boundary` section of a written blockMeshDict"""
+    import re
+
+    m = re.search(r"^boundary\s*\n\(\n(.*?)\n\);", text, flags=re.MULTILINE | re.DOTALL)
+    if m is None:
+        return ["<no boundary section>"]
+    out = []
+    for pm in re.finditer(r"^\t(\w+)\n\t\{(.*?)\n\t\}", m.group(1), flags=re.MULTILINE | re.DOTALL):
+        for quad in re.findall(r"\(\s*(\d+)\s+(\d+)\s+(\d+)\s+(\d+)\s*\)", pm.group(2)):
+            out.append(pm.group(1) + ":" + "-".join(quad))
+    return sorted(out)
+
+
 def _fr(x) -> str:
     return core.rat(Fraction(x))
 
@@ -232,7 +246,16 @@ class C10(core.Check):
             for c in calls:
                 if c[0] == "pcornerL":
                     c[3] = first.setdefault(c[2], rng.choice(["g1", "g2"]))
-            cases.append({"kind": "addr", "base": base, "calls": calls})
+            case = {"kind": "addr", "base": base, "calls": calls}
+            if rng.random() < 0.35:
+                hist = []
+                for _ in range(rng.choice([1, 1, 2])):
+                    if rng.random() < 0.6:
+                        hist.append(["backport", rng.randrange(8) if rng.random() < 0.5 else None])
+                    else:
+                        hist.append(["clear"])
+                case["history"] = hist
+            cases.append(case)
         cases += self._geo_cases(rng, n // 3 if tier == "quick" else n // 4)
         if tier == "thorough":
             for base in ("box", "extrude", "revolve", "wedge"):
@@ -245,6 +268,10 @@ class C10(core.Check):
                     cases.append({"kind": "addr", "base": base, "calls": [["faceedge", "top", i, "g1"]]})
             for c in (-2, -1):
                 cases.append({"kind": "addr", "calls": [["pcorner", c, "g1"]]})
+            for base in ("loft", "box", "extrude", "revolve", "wedge"):
+                for s in sides[:6]:
+                    for hist in ([["backport", None]], [["backport", 3]], [["clear"]], [["clear"], ["backport", 6]]):
+                        cases.append({"kind": "addr", "base": base, "calls": [["patch", s, "pa"], ["pside", s, "g1", 1, 1]], "history": hist})
             for s in sides:
                 cases.append({"kind": "addr", "calls": [["patch", s, "pa"]]})
                 for e in (0, 1):
@@ -448,8 +475,36 @@ class C10(core.Check):
         except Exception as e:  # rejected
             return {"reject": type(e).__name__}
         mesh = cb.Mesh()
+        history = case.get("history", [])
+        if history:
+            for ax in range(3):
+                if not op.chops[ax]:
+                    op.chop(ax, count=2)
         mesh.add(op)
         mesh.assemble()
+        # a history after the first assembly: backport() (what optimisers, smoothers and manual vertex edits end with,
+        # here optionally after a small move of one vertex) or clear() + assemble(); the mesh is read afterwards
+        for h in history:
+            if h[0] == "backport":
+                if h[1] is not None:
+                    v = mesh.vertex_list.vertices[h[1]]
+                    v.move_to(v.position + np.array([1e-3, -1e-3, 1e-3]))
+                mesh.backport()
+            else:
+                mesh.clear()
+                mesh.assemble()
+        written = None
+        if history:
+            import os
+            import tempfile
+
+            fd, path = tempfile.mkstemp(suffix=".blockMeshDict")
+            os.close(fd)
+            try:
+                mesh.write(path)
+                written = _read_patch_quads(open(path).read())
+            finally:
+                os.unlink(path)
         assert [v.index for v in mesh.block_list.blocks[0].vertices] == list(range(8))
         pat = sorted(
             f"{name}:" + "-".join(str(v.index) for v in side.vertices)
@@ -486,6 +541,7 @@ class C10(core.Check):
             ],
             "facing": facing,
             "shared_lists": {k: list(v) for k, v in shared.items()},
+            "Pw": written,
         }
 
 
@@ -575,7 +631,7 @@ class C10(core.Check):
             return ["c10.extrude " + " ".join(",".join(_fr(c) for c in p) for p in case["points"]) + " " + ",".join(_fr(c) for c in case["amount"])]
         if case["kind"] == "connector":
             return []
-        calls = [["base", case.get("base", "loft")]] + case["calls"]
+        calls = [["base", case.get("base", "loft")]] + case["calls"] + [["reassemble", h[0]] for h in case.get("history", [])]
         return ["c10.addr " + ";".join(":".join(str(x) for x in c) for c in calls)]
 
 
@@ -607,6 +663,8 @@ class C10(core.Check):
         if not m:
             return "unparsable model answer " + ans
         got = {k: sorted(x for x in m.group(i + 1).split(";") if x) for i, k in enumerate("PFECX")}
+        if impl.get("Pw") is not None and sorted(impl["Pw"]) != got["P"]:
+            return f"patch quads in the written file after {case.get('history')}: {impl['Pw']}, model {got['P']}"
         if got["X"] != sorted(impl["X"]):
             return f"side edges with other data: implementation {impl['X']}, model {got['X']}"
         for k in "PFE":
@@ -787,6 +845,16 @@ class C10(core.Check):
             got_p[frozenset(map(int, quad.split("-")))] = name
         if got_p != {frozenset(BM_SIDE[s]): n for s, n in exp_p.items()}:
             out.append({"site": "Operation.set_patch:wrong-quad", "what": f"{case['calls']} -> {impl['P']}"})
+        hist = case.get("history", [])
+        if hist and got_p != {frozenset(BM_SIDE[s]): n for s, n in exp_p.items()}:
+            out[-1]["site"] = "Operation.set_patch:wrong-quad:after-" + "+".join(h[0] for h in hist)
+        if impl.get("Pw") is not None:
+            got_w = {}
+            for x in impl["Pw"]:
+                name, _, quad = x.partition(":")
+                got_w[frozenset(map(int, quad.split("-")))] = name if quad else x
+            if got_w != {frozenset(BM_SIDE[s]): n for s, n in exp_p.items()}:
+                out.append({"site": "Operation.set_patch:wrong-quad-in-written-file:after-" + "+".join(h[0] for h in hist), "what": f"{base} {case['calls']} history {hist} -> boundary section {impl['Pw']}"})
         got_f = {frozenset(map(int, x.split(":")[1].split("-"))): x.split(":")[0] for x in impl["F"]}
         if got_f != {frozenset(BM_SIDE[s]): n for s, n in exp_f.items()}:
             out.append({"site": "Operation.project_side:wrong-quad", "what": f"{case['calls']} -> {impl['F']}"})
@@ -916,6 +984,8 @@ class C10(core.Check):
         if "reject" in impl:
             return "addr:rejected:" + impl["reject"]
         b = case.get("base", "loft")
+        if case.get("history"):
+            b += ":" + "+".join(h[0] for h in case["history"])
         return "addr:" + ("" if b == "loft" else b + ":") + "+".join(sorted({c[0] for c in case["calls"]}))
 
 
